@@ -9,6 +9,8 @@ import ChessVerif.Proofs.Legal.Entries
 namespace Chess.Proofs.Search
 open Chess Chess.Engine Chess.MoveGen
 
+variable (pos : Bool)
+
 /-- the pass state after an accepted root move scored `new` -/
 def accept (pc : Color) (p : Pass) (mv : Move) (new : Score) : Pass :=
   ⟨if isBetter pc p.score new = true then new else p.score,
@@ -19,51 +21,51 @@ def accept (pc : Color) (p : Pass) (mv : Move) (new : Score) : Pass :=
 /-- the `alphabeta` call of `rootMove` -/
 abbrev rootAB (k : Nat) (board : Board) (depth : Nat) (tf : ThreeFold) (mv : Move) (p : Pass) (st : St) :
     Score × St :=
-  alphabeta k (depth + 40) board mv depth 1 p.alpha p.beta (BoardList.new board tf) st
+  alphabeta pos k (depth + 40) board mv depth 1 p.alpha p.beta (BoardList.new board tf) st
 
 theorem rootMove_eq (k : Nat) (board : Board) (pc : Color) (depth : Nat) (tf : ThreeFold) (mv : Move)
     (p : Pass) (st : St) :
-    rootMove k board pc depth tf mv p st =
-      if (rootAB k board depth tf mv p st).2.polls ≥ k then
-        (none, ⟨(rootAB k board depth tf mv p st).2.polls + 1, (rootAB k board depth tf mv p st).2.evals⟩)
-      else (some (accept pc p mv (rootAB k board depth tf mv p st).1),
-        ⟨(rootAB k board depth tf mv p st).2.polls + 1, (rootAB k board depth tf mv p st).2.evals⟩) := by
+    rootMove pos k board pc depth tf mv p st =
+      if (rootAB pos k board depth tf mv p st).2.polls ≥ k then
+        (none, ⟨(rootAB pos k board depth tf mv p st).2.polls + 1, (rootAB pos k board depth tf mv p st).2.evals⟩)
+      else (some (accept pc p mv (rootAB pos k board depth tf mv p st).1),
+        ⟨(rootAB pos k board depth tf mv p st).2.polls + 1, (rootAB pos k board depth tf mv p st).2.evals⟩) := by
   unfold rootMove accept rootAB poll
   simp only
-  by_cases h : (alphabeta k (depth + 40) board mv depth 1 p.alpha p.beta (BoardList.new board tf) st).2.polls ≥ k
+  by_cases h : (alphabeta pos k (depth + 40) board mv depth 1 p.alpha p.beta (BoardList.new board tf) st).2.polls ≥ k
   · simp only [h, decide_true, if_true]
   · simp only [h, decide_false, Bool.false_eq_true, if_false]
     by_cases hb : isBetter pc p.score
-        (alphabeta k (depth + 40) board mv depth 1 p.alpha p.beta (BoardList.new board tf) st).1 = true
+        (alphabeta pos k (depth + 40) board mv depth 1 p.alpha p.beta (BoardList.new board tf) st).1 = true
     · simp only [hb, if_true]
     · simp only [hb, Bool.false_eq_true, if_false]
 
 theorem rootAB_spec (k : Nat) (board : Board) (depth : Nat) (tf : ThreeFold) (mv : Move) (p : Pass) (st : St) :
-    ABSpec k board mv 1 st (rootAB k board depth tf mv p st) :=
-  alphabeta_spec k _ _ _ _ _ _ _ _ _
+    ABSpec k board mv 1 st (rootAB pos k board depth tf mv p st) :=
+  alphabeta_spec pos k _ _ _ _ _ _ _ _ _
 
 /-- an accepted root move: no poll up to and including its closing poll reported expiry, so the
 score is not a sentinel; it is numeric or a mate score of distance ≥ 1, and a mate in 1 only for a
 mating move -/
-theorem rootMove_some {k : Nat} {board : Board} {pc : Color} {depth : Nat} {tf : ThreeFold} {mv : Move}
-    {p p' : Pass} {st st' : St} (h : rootMove k board pc depth tf mv p st = (some p', st')) :
+theorem rootMove_some {pos : Bool} {k : Nat} {board : Board} {pc : Color} {depth : Nat} {tf : ThreeFold} {mv : Move}
+    {p p' : Pass} {st st' : St} (h : rootMove pos k board pc depth tf mv p st = (some p', st')) :
     ∃ new, p' = accept pc p mv new ∧ NS new ∧ ShapeGE 1 new ∧ (MateAt 1 new → mates board mv = true) ∧
       (mates board mv = true →
         ((board.raw.get mv.dest).isSome && insufficientMaterial (board.moveUnchecked mv)) = false →
         new = mateScore (board.moveUnchecked mv).turn 1) := by
   rw [rootMove_eq] at h
-  obtain ⟨_, ha, hb, hc⟩ := rootAB_spec k board depth tf mv p st
+  obtain ⟨_, ha, hb, hc⟩ := rootAB_spec pos k board depth tf mv p st
   split at h
   · cases h
   · rename_i hlt
     simp only [Prod.mk.injEq, Option.some.injEq] at h
     refine ⟨_, h.1.symm, ha (by omega), hb, hc, ?_⟩
     intro hm hd
-    show (alphabeta k ((depth + 39) + 1) board mv depth 1 p.alpha p.beta (BoardList.new board tf) st).1 = _
-    rw [alphabeta_mate k _ board mv depth 1 _ _ _ st hm hd]
+    show (alphabeta pos k ((depth + 39) + 1) board mv depth 1 p.alpha p.beta (BoardList.new board tf) st).1 = _
+    rw [alphabeta_mate pos k _ board mv depth 1 _ _ _ st hm hd]
 
-theorem rootMove_none {k : Nat} {board : Board} {pc : Color} {depth : Nat} {tf : ThreeFold} {mv : Move}
-    {p : Pass} {st st' : St} (h : rootMove k board pc depth tf mv p st = (none, st')) : k < st'.polls := by
+theorem rootMove_none {pos : Bool} {k : Nat} {board : Board} {pc : Color} {depth : Nat} {tf : ThreeFold} {mv : Move}
+    {p : Pass} {st st' : St} (h : rootMove pos k board pc depth tf mv p st = (none, st')) : k < st'.polls := by
   rw [rootMove_eq] at h
   split at h
   · rename_i hge
@@ -75,9 +77,9 @@ theorem rootMove_none {k : Nat} {board : Board} {pc : Color} {depth : Nat} {tf :
     cases h.1
 
 theorem rootMove_polls (k : Nat) (board : Board) (pc : Color) (depth : Nat) (tf : ThreeFold) (mv : Move)
-    (p : Pass) (st : St) : st.polls ≤ (rootMove k board pc depth tf mv p st).2.polls := by
+    (p : Pass) (st : St) : st.polls ≤ (rootMove pos k board pc depth tf mv p st).2.polls := by
   rw [rootMove_eq]
-  obtain ⟨hm, _⟩ := rootAB_spec k board depth tf mv p st
+  obtain ⟨hm, _⟩ := rootAB_spec pos k board depth tf mv p st
   split
   · show _ ≤ _ + 1
     omega
@@ -90,11 +92,11 @@ theorem rootMove_polls (k : Nat) (board : Board) (pc : Color) (depth : Nat) (tf 
 only ever removed, and those outside the mask are all kept -/
 theorem rootLoop_struct (k : Nat) (board : Board) (pc : Color) (depth : Nat) (tf : ThreeFold) :
     ∀ n g p st,
-      st.polls ≤ (rootLoop k board pc depth tf n g p st).2.2.polls ∧
-      (rootLoop k board pc depth tf n g p st).2.1.mask = g.mask ∧
-      (rootLoop k board pc depth tf n g p st).2.1.moves.length = g.moves.length ∧
-      (∀ x, Avail (rootLoop k board pc depth tf n g p st).2.1 x → Avail g x) ∧
-      (∀ x, Avail g x → BB.mem g.mask x.dest = false → Avail (rootLoop k board pc depth tf n g p st).2.1 x) := by
+      st.polls ≤ (rootLoop pos k board pc depth tf n g p st).2.2.polls ∧
+      (rootLoop pos k board pc depth tf n g p st).2.1.mask = g.mask ∧
+      (rootLoop pos k board pc depth tf n g p st).2.1.moves.length = g.moves.length ∧
+      (∀ x, Avail (rootLoop pos k board pc depth tf n g p st).2.1 x → Avail g x) ∧
+      (∀ x, Avail g x → BB.mem g.mask x.dest = false → Avail (rootLoop pos k board pc depth tf n g p st).2.1 x) := by
   intro n
   induction n with
   | zero =>
@@ -116,8 +118,8 @@ theorem rootLoop_struct (k : Nat) (board : Board) (pc : Color) (depth : Nat) (tf
       | none => exact ⟨Nat.le_refl _, hnm, hnl, hna, hnk⟩
       | some mv =>
         simp only
-        have hp := rootMove_polls k board pc depth tf mv p st
-        cases hr : rootMove k board pc depth tf mv p st with
+        have hp := rootMove_polls pos k board pc depth tf mv p st
+        cases hr : rootMove pos k board pc depth tf mv p st with
         | mk op st' =>
           rw [hr] at hp
           simp only at hp
@@ -136,8 +138,8 @@ theorem rootLoop_struct (k : Nat) (board : Board) (pc : Color) (depth : Nat) (tf
 preserves is preserved by a root loop -/
 theorem rootLoop_inv (k : Nat) (board : Board) (pc : Color) (depth : Nat) (tf : ThreeFold)
     (I : Pass → Prop) (V : Move → Prop)
-    (hstep : ∀ mv p st p' st', V mv → I p → rootMove k board pc depth tf mv p st = (some p', st') → I p') :
-    ∀ n g p st, (∀ x, Avail g x → V x) → I p → I (rootLoop k board pc depth tf n g p st).1 := by
+    (hstep : ∀ mv p st p' st', V mv → I p → rootMove pos k board pc depth tf mv p st = (some p', st') → I p') :
+    ∀ n g p st, (∀ x, Avail g x → V x) → I p → I (rootLoop pos k board pc depth tf n g p st).1 := by
   intro n
   induction n with
   | zero =>
@@ -157,7 +159,7 @@ theorem rootLoop_inv (k : Nat) (board : Board) (pc : Color) (depth : Nat) (tf : 
       | none => exact hI
       | some mv =>
         simp only
-        cases hr : rootMove k board pc depth tf mv p st with
+        cases hr : rootMove pos k board pc depth tf mv p st with
         | mk op st' =>
           cases op with
           | none => exact hI
@@ -169,11 +171,11 @@ theorem rootLoop_inv (k : Nat) (board : Board) (pc : Color) (depth : Nat) (tf : 
 /-- a loop over an iterator that yields at least one move, without expiry: the first move is accepted -/
 theorem rootLoop_first (k : Nat) (board : Board) (pc : Color) (depth : Nat) (tf : ThreeFold)
     (I J : Pass → Prop)
-    (hIJ : ∀ mv p st p' st', I p → rootMove k board pc depth tf mv p st = (some p', st') → J p')
-    (hJ : ∀ mv p st p' st', J p → rootMove k board pc depth tf mv p st = (some p', st') → J p')
+    (hIJ : ∀ mv p st p' st', I p → rootMove pos k board pc depth tf mv p st = (some p', st') → J p')
+    (hJ : ∀ mv p st p' st', J p → rootMove pos k board pc depth tf mv p st = (some p', st') → J p')
     (n : Nat) (g : MoveGen) (p : Pass) (st : St) (hsome : (g.next).1.isSome = true) (hI : I p)
-    (hk : (rootLoop k board pc depth tf (n + 1) g p st).2.2.polls ≤ k) :
-    J (rootLoop k board pc depth tf (n + 1) g p st).1 := by
+    (hk : (rootLoop pos k board pc depth tf (n + 1) g p st).2.2.polls ≤ k) :
+    J (rootLoop pos k board pc depth tf (n + 1) g p st).1 := by
   rw [rootLoop.eq_2] at hk ⊢
   cases hn : g.next with
   | mk o g' =>
@@ -182,7 +184,7 @@ theorem rootLoop_first (k : Nat) (board : Board) (pc : Color) (depth : Nat) (tf 
     | none => cases hsome
     | some mv =>
       simp only at hk ⊢
-      cases hr : rootMove k board pc depth tf mv p st with
+      cases hr : rootMove pos k board pc depth tf mv p st with
       | mk op st' =>
         rw [hr] at hk
         cases op with
@@ -192,7 +194,7 @@ theorem rootLoop_first (k : Nat) (board : Board) (pc : Color) (depth : Nat) (tf 
           omega
         | some p' =>
           simp only
-          exact rootLoop_inv k board pc depth tf J (fun _ => True)
+          exact rootLoop_inv pos k board pc depth tf J (fun _ => True)
             (fun mv p st p' st' _ hj h => hJ mv p st p' st' hj h) n g' p' st' (fun _ _ => trivial)
             (hIJ mv p st p' st' hI hr)
 
@@ -200,8 +202,8 @@ theorem rootLoop_first (k : Nat) (board : Board) (pc : Color) (depth : Nat) (tf 
 cursor is left at a group boundary -/
 theorem rootLoop_exhaust (k : Nat) (board : Board) (pc : Color) (depth : Nat) (tf : ThreeFold) :
     ∀ n g p st, Good g → (mvsAt g).length < n →
-      (rootLoop k board pc depth tf n g p st).2.2.polls ≤ k →
-      (rootLoop k board pc depth tf n g p st).2.1.promoIdx = 0 := by
+      (rootLoop pos k board pc depth tf n g p st).2.2.polls ≤ k →
+      (rootLoop pos k board pc depth tf n g p st).2.1.promoIdx = 0 := by
   intro n
   induction n with
   | zero => intro g p st _ hl; omega
@@ -227,7 +229,7 @@ theorem rootLoop_exhaust (k : Nat) (board : Board) (pc : Color) (depth : Nat) (t
         · cases h
       | some mv =>
         simp only at hk ⊢
-        cases hr : rootMove k board pc depth tf mv p st with
+        cases hr : rootMove pos k board pc depth tf mv p st with
         | mk op st' =>
           rw [hr] at hk
           cases op with
@@ -250,12 +252,12 @@ theorem rootLoop_exhaust (k : Nat) (board : Board) (pc : Color) (depth : Nat) (t
 `I` holds until the move `x` is reached, `J` from then on -/
 theorem rootLoop_visit (k : Nat) (board : Board) (pc : Color) (depth : Nat) (tf : ThreeFold)
     (I J : Pass → Prop) (x : Move)
-    (hI : ∀ mv p st p' st', I p → rootMove k board pc depth tf mv p st = (some p', st') → I p')
-    (hIJ : ∀ p st p' st', I p → rootMove k board pc depth tf x p st = (some p', st') → J p')
-    (hJ : ∀ mv p st p' st', J p → rootMove k board pc depth tf mv p st = (some p', st') → J p') :
+    (hI : ∀ mv p st p' st', I p → rootMove pos k board pc depth tf mv p st = (some p', st') → I p')
+    (hIJ : ∀ p st p' st', I p → rootMove pos k board pc depth tf x p st = (some p', st') → J p')
+    (hJ : ∀ mv p st p' st', J p → rootMove pos k board pc depth tf mv p st = (some p', st') → J p') :
     ∀ n g p st, Good g → x ∈ mvsAt g → (mvsAt g).length < n → I p →
-      (rootLoop k board pc depth tf n g p st).2.2.polls ≤ k →
-      J (rootLoop k board pc depth tf n g p st).1 := by
+      (rootLoop pos k board pc depth tf n g p st).2.2.polls ≤ k →
+      J (rootLoop pos k board pc depth tf n g p st).1 := by
   intro n
   induction n with
   | zero => intro g p st _ _ hl; omega
@@ -274,7 +276,7 @@ theorem rootLoop_visit (k : Nat) (board : Board) (pc : Color) (depth : Nat) (tf 
         simp only [List.head?_cons, List.tail_cons, List.length_cons] at s1 s2 hl
         subst s1
         simp only at hk ⊢
-        cases hr : rootMove k board pc depth tf a p st with
+        cases hr : rootMove pos k board pc depth tf a p st with
         | mk op st' =>
           rw [hr] at hk
           cases op with
@@ -285,7 +287,7 @@ theorem rootLoop_visit (k : Nat) (board : Board) (pc : Color) (depth : Nat) (tf 
           | some p' =>
             simp only at hk ⊢
             rcases List.mem_cons.1 hx with rfl | hxt
-            · exact rootLoop_inv k board pc depth tf J (fun _ => True)
+            · exact rootLoop_inv pos k board pc depth tf J (fun _ => True)
                 (fun mv p st p' st' _ hj h => hJ mv p st p' st' hj h) n g' p' st' (fun _ _ => trivial)
                 (hIJ p st p' st' hIp hr)
             · exact ih g' p' st' s3 (by rw [s2]; exact hxt) (by rw [s2]; omega)
@@ -296,17 +298,17 @@ theorem rootLoop_visit (k : Nat) (board : Board) (pc : Color) (depth : Nat) (tf 
 every held move `x` is visited -/
 theorem twoLoops_visit (k : Nat) (board : Board) (pc : Color) (depth : Nat) (tf : ThreeFold)
     (I F : Pass → Prop) (x : Move)
-    (hI : ∀ mv p st p' st', I p → rootMove k board pc depth tf mv p st = (some p', st') → I p')
-    (hIF : ∀ p st p' st', I p → rootMove k board pc depth tf x p st = (some p', st') → F p')
-    (hF : ∀ mv p st p' st', F p → rootMove k board pc depth tf mv p st = (some p', st') → F p')
+    (hI : ∀ mv p st p' st', I p → rootMove pos k board pc depth tf mv p st = (some p', st') → I p')
+    (hIF : ∀ p st p' st', I p → rootMove pos k board pc depth tf x p st = (some p', st') → F p')
+    (hF : ∀ mv p st p' st', F p → rootMove pos k board pc depth tf mv p st = (some p', st') → F p')
     (g : MoveGen) (hg : g.promoIdx = 0) (hlen : g.moves.length ≤ 18) (M : BB) (hx : Avail g x)
     (p : Pass) (st : St) (hIp : I p) (l1 l2 : Pass × MoveGen × St)
-    (h1 : rootLoop k board pc depth tf 5000 (g.setMask M) p st = l1)
-    (h2 : rootLoop k board pc depth tf 5000 (l1.2.1.setMask BB.full) l1.1 l1.2.2 = l2)
+    (h1 : rootLoop pos k board pc depth tf 5000 (g.setMask M) p st = l1)
+    (h2 : rootLoop pos k board pc depth tf 5000 (l1.2.1.setMask BB.full) l1.1 l1.2.2 = l2)
     (hk : l2.2.2.polls ≤ k) : F l2.1 := by
-  have hst1 := rootLoop_struct k board pc depth tf 5000 (g.setMask M) p st
+  have hst1 := rootLoop_struct pos k board pc depth tf 5000 (g.setMask M) p st
   rw [h1] at hst1
-  have hst2 := rootLoop_struct k board pc depth tf 5000 (l1.2.1.setMask BB.full) l1.1 l1.2.2
+  have hst2 := rootLoop_struct pos k board pc depth tf 5000 (l1.2.1.setMask BB.full) l1.1 l1.2.2
   rw [h2] at hst2
   have hk1 : l1.2.2.polls ≤ k := Nat.le_trans hst2.1 hk
   have hp0 : (g.setMask M).promoIdx = 0 := hg
@@ -317,22 +319,22 @@ theorem twoLoops_visit (k : Nat) (board : Board) (pc : Color) (depth : Nat) (tf 
     show (compact M g.moves).length ≤ 18
     rw [(compact_perm M g.moves).length_eq]
     exact hlen
-  have hFinv := rootLoop_inv k board pc depth tf F (fun _ => True)
+  have hFinv := rootLoop_inv pos k board pc depth tf F (fun _ => True)
     (fun mv p st p' st' _ hj h => hF mv p st p' st' hj h)
   by_cases hmem : BB.mem M x.dest = true
   · have hx0 : x ∈ mvsAt (g.setMask M) := by
       rw [mvsAt_of_zero _ hp0]
       exact (mem_mvsOf_setMask g M x).2 ⟨hx, hmem⟩
-    have hF1 := rootLoop_visit k board pc depth tf I F x hI hIF hF 5000 (g.setMask M) p st hg0 hx0 hlen0 hIp
+    have hF1 := rootLoop_visit pos k board pc depth tf I F x hI hIF hF 5000 (g.setMask M) p st hg0 hx0 hlen0 hIp
       (by rw [h1]; exact hk1)
     rw [h1] at hF1
     have := hFinv 5000 (l1.2.1.setMask BB.full) l1.1 l1.2.2 (fun _ _ => trivial) hF1
     rw [h2] at this
     exact this
-  · have hI1 := rootLoop_inv k board pc depth tf I (fun _ => True)
+  · have hI1 := rootLoop_inv pos k board pc depth tf I (fun _ => True)
       (fun mv p st p' st' _ hj h => hI mv p st p' st' hj h) 5000 (g.setMask M) p st (fun _ _ => trivial) hIp
     rw [h1] at hI1
-    have hpi := rootLoop_exhaust k board pc depth tf 5000 (g.setMask M) p st hg0 hlen0 (by rw [h1]; exact hk1)
+    have hpi := rootLoop_exhaust pos k board pc depth tf 5000 (g.setMask M) p st hg0 hlen0 (by rw [h1]; exact hk1)
     rw [h1] at hpi
     have hav1 : Avail l1.2.1 x := by
       apply hst1.2.2.2.2 x ((avail_setMask g M x).2 hx)
@@ -350,7 +352,7 @@ theorem twoLoops_visit (k : Nat) (board : Board) (pc : Color) (depth : Nat) (tf 
       show (compact M g.moves).length ≤ 18
       rw [(compact_perm M g.moves).length_eq]
       exact hlen
-    have hF2 := rootLoop_visit k board pc depth tf I F x hI hIF hF 5000 (l1.2.1.setMask BB.full) l1.1 l1.2.2
+    have hF2 := rootLoop_visit pos k board pc depth tf I F x hI hIF hF 5000 (l1.2.1.setMask BB.full) l1.1 l1.2.2
       (good_of_zero _ hp2) hx2 hlen2 hI1 (by rw [h2]; exact hk)
     rw [h2] at hF2
     exact hF2
@@ -365,27 +367,27 @@ def passTail (k : Nat) (board : Board) (pc : Color) (tf : ThreeFold) (passes dep
     (bestMv : Option Move) (bestScore : Score) (maxDepth : Nat) (p1 : Pass) (moves : MoveGen) (st : St) :
     Result :=
   let moves := moves.setMask (board.raw.color pc.flip)
-  let (p2, moves, st) := rootLoop k board pc depth tf 5000 moves p1 st
+  let (p2, moves, st) := rootLoop pos k board pc depth tf 5000 moves p1 st
   let moves := moves.setMask BB.full
-  let (p3, _, st) := rootLoop k board pc depth tf 5000 moves p2 st
+  let (p3, _, st) := rootLoop pos k board pc depth tf 5000 moves p2 st
   let (done, st) := poll k st
   if done then ⟨bestMv, bestScore, maxDepth, st.evals, st.polls⟩ else
   let depth' := if depth + 1 ≥ 65535 then 65535 else depth + 1
   match p3.score with
   | .blackMateIn _ | .whiteMateIn _ => ⟨p3.best, p3.score, depth, st.evals, st.polls⟩
-  | _ => deepen k board pc tf passes depth' p3.best p3.score depth st
+  | _ => deepen pos k board pc tf passes depth' p3.best p3.score depth st
 
 /-- `passTail` with the two loop results named -/
 theorem passTail_eq (k : Nat) (board : Board) (pc : Color) (tf : ThreeFold) (passes depth : Nat)
     (bestMv : Option Move) (bestScore : Score) (maxDepth : Nat) (p1 : Pass) (moves : MoveGen) (st : St)
     (l1 l2 : Pass × MoveGen × St)
-    (h1 : rootLoop k board pc depth tf 5000 (moves.setMask (board.raw.color pc.flip)) p1 st = l1)
-    (h2 : rootLoop k board pc depth tf 5000 (l1.2.1.setMask BB.full) l1.1 l1.2.2 = l2) :
-    passTail k board pc tf passes depth bestMv bestScore maxDepth p1 moves st =
+    (h1 : rootLoop pos k board pc depth tf 5000 (moves.setMask (board.raw.color pc.flip)) p1 st = l1)
+    (h2 : rootLoop pos k board pc depth tf 5000 (l1.2.1.setMask BB.full) l1.1 l1.2.2 = l2) :
+    passTail pos k board pc tf passes depth bestMv bestScore maxDepth p1 moves st =
       if l2.2.2.polls ≥ k then ⟨bestMv, bestScore, maxDepth, l2.2.2.evals, l2.2.2.polls + 1⟩
       else match l2.1.score with
         | .blackMateIn _ | .whiteMateIn _ => ⟨l2.1.best, l2.1.score, depth, l2.2.2.evals, l2.2.2.polls + 1⟩
-        | _ => deepen k board pc tf passes (if depth + 1 ≥ 65535 then 65535 else depth + 1)
+        | _ => deepen pos k board pc tf passes (if depth + 1 ≥ 65535 then 65535 else depth + 1)
             l2.1.best l2.1.score depth ⟨l2.2.2.polls + 1, l2.2.2.evals⟩ := by
   unfold passTail
   simp only
@@ -401,25 +403,25 @@ theorem passTail_eq (k : Nat) (board : Board) (pc : Color) (tf : ThreeFold) (pas
 
 theorem deepen_none (k : Nat) (board : Board) (pc : Color) (tf : ThreeFold) (passes depth : Nat)
     (bestScore : Score) (maxDepth : Nat) (st : St) :
-    deepen k board pc tf (passes + 1) depth none bestScore maxDepth st =
-      passTail k board pc tf passes depth none bestScore maxDepth (pass0 pc) (MoveGen.legals board) st := by
+    deepen pos k board pc tf (passes + 1) depth none bestScore maxDepth st =
+      passTail pos k board pc tf passes depth none bestScore maxDepth (pass0 pc) (MoveGen.legals board) st := by
   rw [deepen.eq_3]
   unfold passTail pass0
   simp only [Bool.false_eq_true, if_false]
-  generalize rootLoop k board pc depth tf 5000 (MoveGen.setMask _ BB.full) _ _ = l2
+  generalize rootLoop pos k board pc depth tf 5000 (MoveGen.setMask _ BB.full) _ _ = l2
   generalize hs : l2.1.score = s
   cases s <;> rfl
 
 theorem deepen_some (k : Nat) (board : Board) (pc : Color) (tf : ThreeFold) (passes depth : Nat)
     (mv : Move) (bestScore : Score) (maxDepth : Nat) (st : St) :
-    deepen k board pc tf (passes + 1) depth (some mv) bestScore maxDepth st =
-      match rootMove k board pc depth tf mv (pass0 pc) st with
+    deepen pos k board pc tf (passes + 1) depth (some mv) bestScore maxDepth st =
+      match rootMove pos k board pc depth tf mv (pass0 pc) st with
       | (none, st') => ⟨some mv, bestScore, maxDepth, st'.evals, st'.polls⟩
       | (some p, st') =>
-        passTail k board pc tf passes depth (some mv) bestScore maxDepth p
+        passTail pos k board pc tf passes depth (some mv) bestScore maxDepth p
           ((MoveGen.legals board).removeMove mv).1 st' := by
   rw [deepen.eq_2]
-  cases hr : rootMove k board pc depth tf mv (pass0 pc) st with
+  cases hr : rootMove pos k board pc depth tf mv (pass0 pc) st with
   | mk op st' =>
     cases op with
     | none => rfl
@@ -431,13 +433,13 @@ theorem deepen_inv (k : Nat) (board : Board) (pc : Color) (tf : ThreeFold)
     (I : Option Move → Score → Prop) (PI : Pass → Prop)
     (hpre0 : ∀ s, I none s → PI (pass0 pc))
     (hpre1 : ∀ mv s depth st p' st', I (some mv) s →
-      rootMove k board pc depth tf mv (pass0 pc) st = (some p', st') → PI p')
+      rootMove pos k board pc depth tf mv (pass0 pc) st = (some p', st') → PI p')
     (hloop : ∀ depth n g p st, (∀ x, Avail g x → Avail (MoveGen.legals board) x) → PI p →
-      PI (rootLoop k board pc depth tf n g p st).1)
+      PI (rootLoop pos k board pc depth tf n g p st).1)
     (hfin : ∀ p, PI p → I p.best p.score) :
     ∀ passes depth bestMv bestScore maxDepth st, I bestMv bestScore →
-      I (deepen k board pc tf passes depth bestMv bestScore maxDepth st).move
-        (deepen k board pc tf passes depth bestMv bestScore maxDepth st).score := by
+      I (deepen pos k board pc tf passes depth bestMv bestScore maxDepth st).move
+        (deepen pos k board pc tf passes depth bestMv bestScore maxDepth st).score := by
   intro passes
   induction passes with
   | zero =>
@@ -447,17 +449,17 @@ theorem deepen_inv (k : Nat) (board : Board) (pc : Color) (tf : ThreeFold)
   | succ passes ih =>
     have tail : ∀ depth bestMv bestScore maxDepth p1 moves st, I bestMv bestScore → PI p1 →
         (∀ x, Avail moves x → Avail (MoveGen.legals board) x) →
-        I (passTail k board pc tf passes depth bestMv bestScore maxDepth p1 moves st).move
-          (passTail k board pc tf passes depth bestMv bestScore maxDepth p1 moves st).score := by
+        I (passTail pos k board pc tf passes depth bestMv bestScore maxDepth p1 moves st).move
+          (passTail pos k board pc tf passes depth bestMv bestScore maxDepth p1 moves st).score := by
       intro depth bestMv bestScore maxDepth p1 moves st hI hP hsub
-      rw [passTail_eq k board pc tf passes depth bestMv bestScore maxDepth p1 moves st _ _ rfl rfl]
+      rw [passTail_eq pos k board pc tf passes depth bestMv bestScore maxDepth p1 moves st _ _ rfl rfl]
       have h1 := hloop depth 5000 (moves.setMask (board.raw.color pc.flip)) p1 st
         (fun x h => hsub x ((avail_setMask _ _ x).1 h)) hP
-      have hs1 := (rootLoop_struct k board pc depth tf 5000 (moves.setMask (board.raw.color pc.flip)) p1 st).2.2.2.1
-      generalize rootLoop k board pc depth tf 5000 (moves.setMask (board.raw.color pc.flip)) p1 st = l1 at h1 hs1 ⊢
+      have hs1 := (rootLoop_struct pos k board pc depth tf 5000 (moves.setMask (board.raw.color pc.flip)) p1 st).2.2.2.1
+      generalize rootLoop pos k board pc depth tf 5000 (moves.setMask (board.raw.color pc.flip)) p1 st = l1 at h1 hs1 ⊢
       have h2 := hloop depth 5000 (l1.2.1.setMask BB.full) l1.1 l1.2.2
         (fun x h => hsub x ((avail_setMask _ _ x).1 (hs1 x ((avail_setMask _ _ x).1 h)))) h1
-      generalize rootLoop k board pc depth tf 5000 (l1.2.1.setMask BB.full) l1.1 l1.2.2 = l2 at h2 ⊢
+      generalize rootLoop pos k board pc depth tf 5000 (l1.2.1.setMask BB.full) l1.1 l1.2.2 = l2 at h2 ⊢
       split
       · exact hI
       · have hf := hfin _ h2
@@ -472,7 +474,7 @@ theorem deepen_inv (k : Nat) (board : Board) (pc : Color) (tf : ThreeFold)
       exact tail depth none bestScore maxDepth _ _ st hI (hpre0 _ hI) (fun _ h => h)
     | some mv =>
       rw [deepen_some]
-      cases hr : rootMove k board pc depth tf mv (pass0 pc) st with
+      cases hr : rootMove pos k board pc depth tf mv (pass0 pc) st with
       | mk op st' =>
         cases op with
         | none => exact hI
